@@ -31,12 +31,13 @@ from engine import facts as F
 from engine import load
 from engine import poly as P
 from engine import sx
+from engine import terms as T
 from engine.poly import Poly
 
 LEVEL = "proof"
 
 INLINE = ("fcppt::math", "fcppt::array", "fcppt::algorithm", "fcppt::type_traits", "fcppt::cast", "fcppt::literal",
-          "fcppt::tuple", "fcppt::container", "fcppt::mpl", "(anonymous namespace)::scenario_")
+          "fcppt::tuple", "fcppt::container", "fcppt::mpl", "(anonymous namespace)::scenario_", "(anonymous namespace)::view_storage")
 RECORDS = ("fcppt::math", "fcppt::array")
 PURE = ("fcppt::array::object::get_unsafe",)
 
@@ -56,7 +57,7 @@ def shape_of(ty):
                 return None
             return ("mat", int(m.group(3)), int(m.group(4)))
         return ("vec" if kind == "vector" else "dim", int(m.group(3)))
-    if core in ("int", "long", "unsigned int", "unsigned long", "short"):
+    if core in ("int", "long", "unsigned int", "unsigned long", "short", "signed char"):
         return ("scalar",)
     return None
 
@@ -66,6 +67,18 @@ def is_static(ty):
     ty = re.sub(r"^const\s+", "", (ty or "").strip())
     m = _OBJ.match(ty)
     return bool(m) and ty[m.end():].lstrip().startswith("fcppt::math::detail::static_storage<")
+
+
+def is_plain(ty):
+    """static storage or the driver's view storage (elements addressed by their linear cell)"""
+    ty = re.sub(r"^const\s+", "", (ty or "").strip())
+    m = _OBJ.match(ty)
+    rest = ty[m.end():].lstrip() if m else ""
+    return plain_storage(rest)
+
+
+def plain_storage(s):
+    return s.startswith("fcppt::math::detail::static_storage<") or s.startswith("(anonymous namespace)::view_storage<") or s.startswith("view_storage<")
 
 
 def hook_get(it, recv, args, d, unit, n):
@@ -89,7 +102,24 @@ def hook_tuple(it, recv, args, d, unit, n):
     return ("tuple", tuple(args))
 
 
-HOOKS = {"std::get": hook_get, "std::forward_as_tuple": hook_tuple, "std::make_tuple": hook_tuple, "std::tie": hook_tuple}
+_WIDTH = {"bool": 1, "char": 8, "signed char": 8, "unsigned char": 8, "short": 16, "unsigned short": 16, "int": 32, "unsigned int": 32,
+          "long": 64, "unsigned long": 64, "long long": 64, "unsigned long long": 64}
+
+
+def _w(ty):
+    return _WIDTH.get(re.sub(r"^const\s+", "", (ty or "").strip()))
+
+
+def hook_cast(it, ty, v, unit, n):
+    """keep integral conversions that lose width visible: ("narrow", to, from, value)"""
+    src = unit.ty((n.get("e") or {}).get("t")) if isinstance(n, dict) else None
+    wt, ws = _w(ty), _w(src)
+    if wt is not None and ws is not None and wt < ws and not sx.is_const(v):
+        return ("narrow", ty, src, v)
+    return None
+
+
+HOOKS = {"cast": hook_cast, "std::get": hook_get, "std::forward_as_tuple": hook_tuple, "std::make_tuple": hook_tuple, "std::tie": hook_tuple}
 
 
 def config():
@@ -110,6 +140,41 @@ def run(db, cfg, fn, this=None):
     if p.outcome[0] != "return":
         raise Broken("outcome %s" % (p.outcome[0],))
     return p.outcome[1], p.events
+
+
+def run_paths(db, cfg, fn, this=None, limit=400):
+    """all paths of a function whose only branches test an operand element against a constant"""
+    ps = sx.Interp(db, cfg).paths(fn, this=this, limit=limit)
+    out = []
+    for p in ps:
+        if p.outcome[0] != "return":
+            raise Broken("outcome %s" % (p.outcome[0],))
+        out.append((p.decisions, p.outcome[1], p.events))
+    return out
+
+
+def path_subst(res, decisions):
+    """{atom: constant} implied by a path's decisions; every decision must compare one operand element with a constant"""
+    sub = {}
+    for atom, truth in decisions:
+        a = atom
+        if not (isinstance(a, tuple) and a and a[0] == "cmp" and a[1] in ("==", "!=")):
+            raise Broken("a branch on %s (only tests of an element against a constant are followed)" % sx.show(atom))
+        l, r = res.poly(a[2]), res.poly(a[3])
+        d = l - r
+        mons = [k for k in d.t if k != ()]
+        if len(mons) != 1 or len(mons[0]) != 1 or d.t[mons[0]] not in (1, -1):
+            raise Broken("a branch on %s (not an element compared with a constant)" % sx.show(atom))
+        c = -d.t.get((), 0) * d.t[mons[0]]
+        if (a[1] == "==") == truth:
+            sub[mons[0][0]] = c
+    return sub
+
+
+def apply_subst(p, sub):
+    if not sub:
+        return p
+    return p.subst(lambda a: Poly.const(sub[a]) if a in sub else Poly.atom(a))
 
 
 # --------------------------------------------------------------------------------------------
@@ -270,7 +335,18 @@ def make_resolver(lay, operands, events):
         if o is None or o.shape[0] != "scalar":
             raise P.Unresolved("symbol %s used as a number" % name)
         return o.scalar()
-    return P.Resolver(atom_of, scalar, events)
+    return NarrowAware(atom_of, scalar, events)
+
+
+class Narrowed(Exception):
+    pass
+
+
+class NarrowAware(P.Resolver):
+    def poly(self, v, depth=0):
+        if isinstance(v, tuple) and v and v[0] == "narrow":
+            raise Narrowed("a value of type %s is converted to %s on its way into the result: %s" % (v[2], v[1], sx.show(v[3])[:120]))
+        return P.Resolver.poly(self, v, depth)
 
 
 def result_map(lay, res, shape, value):
@@ -475,14 +551,26 @@ def fn_key(name, fn, ops, rshape):
     if name.endswith("delete_row_and_column"):
         ta = fn.get("targs") or []
         extra = "<%s,%s>" % (ta[0].rstrip("U"), ta[1].rstrip("U"))
-    return "%s%s|%s->%s" % (name.replace("fcppt::math::", ""), extra, ",".join(o.shape[0] + sh(o.shape) for o in ops),
-                            rshape[0] + sh(rshape))
+    u = fn["_unit"]
+    tys = [(_OBJ.match(re.sub(r"^const\s+", "", (u.ty(p["t"]) or "").strip())) or [None, None, None])[2] for p in fn["params"]]
+    mixed = "|mixed:" + "/".join(t or "s" for t in tys) if any(t not in (None, "int") for t in tys) else ""
+    return "%s%s|%s->%s%s" % (name.replace("fcppt::math::", ""), extra, ",".join(o.shape[0] + sh(o.shape) for o in ops),
+                              rshape[0] + sh(rshape), mixed)
 
 
 def evaluate(db, cfg, lay, fn, ops, rshape, this=None):
     v, ev = run(db, cfg, fn, this=this)
     res = make_resolver(lay, ops, ev)
     return result_map(lay, res, rshape, v), ev, res
+
+
+def evaluate_paths(db, cfg, lay, fn, ops, rshape):
+    """[(substitution implied by the path, result map)] for every path"""
+    out = []
+    for decisions, v, ev in run_paths(db, cfg, fn):
+        res = make_resolver(lay, ops, ev)
+        out.append((path_subst(res, decisions), result_map(lay, res, rshape, v)))
+    return out
 
 
 def rule_formula(rep, db, cfg, lay):
@@ -505,14 +593,37 @@ def rule_formula(rep, db, cfg, lay):
             want, text = sp
             key = fn_key(name, fn, ops, rshape)
             try:
-                got, ev, _ = evaluate(db, cfg, lay, fn, ops, rshape)
+                paths = evaluate_paths(db, cfg, lay, fn, ops, rshape)
+            except Narrowed as e:
+                rep.fail("FORMULA", key, F.primary_site(fn), F.describe(fn), "%s: %s" % (text, e))
+                n_here += 1
+                continue
             except (Broken, sx.Unsupported, P.Unresolved) as e:
                 rep.broken("C14 FORMULA %s at %s: the result does not reduce to a ring expression over the operands' elements: %s"
                            % (key, F.primary_site(fn), e))
                 n_here += 1
                 continue
-            compare(rep, "FORMULA", key, fn, got, want, text)
-            derived[key] = (fn, ops, rshape, got)
+            if len(paths) == 1 and not paths[0][0]:
+                compare(rep, "FORMULA", key, fn, paths[0][1], want, text)
+                derived[key] = (fn, ops, rshape, paths[0][1])
+            else:
+                # value-dependent shortcuts: on each path the result must equal the formula under the path's own assumptions
+                bad = None
+                for sub, got in paths:
+                    for i in sorted(want):
+                        w = apply_subst(want[i], sub)
+                        g = apply_subst(got.get(i, Poly.atom(("missing",))), sub)
+                        if g != w:
+                            bad = "on the path where %s: element %s is %s, formula gives %s" % (
+                                ", ".join("%s[%s] = %d" % (a[0], ",".join(str(x) for x in a[1:]), c) for a, c in sorted(sub.items())) or "no element is tested",
+                                show_idx(i), g.show(), w.show())
+                            break
+                    if bad:
+                        break
+                if bad:
+                    rep.fail("FORMULA", key, F.primary_site(fn), F.describe(fn), "%s: %s" % (text, bad))
+                else:
+                    rep.ok("FORMULA", key, F.primary_site(fn), F.describe(fn), text + " (on each of %d paths)" % len(paths))
             n_here += 1
         if n_here == 0:
             rep.broken("C14 FORMULA: no analysable instantiation of %s" % name)
@@ -522,35 +633,38 @@ def rule_formula(rep, db, cfg, lay):
 # --------------------------------------------------------------------------------------------
 # INPLACE
 
-INPLACE = {"+=": lambda x, y: x + y, "-=": lambda x, y: x - y, "*=": lambda x, y: x * y}
+INPLACE = {"+=": lambda x, y: x + y, "-=": lambda x, y: x - y, "*=": lambda x, y: x * y, "=": lambda x, y: y}
 
 
 def rule_inplace(rep, db, cfg, lay):
-    rep.rule("INPLACE", "+=, -=, *= write every element of *this exactly once with the formula's value", floor=30)
+    rep.rule("INPLACE", "+=, -=, *= and the cross-storage assignment write every element of *this exactly once with the formula's value", floor=60)
     for cls, kind in (("fcppt::math::vector::object", "vec"), ("fcppt::math::dim::object", "dim"), ("fcppt::math::matrix::object", "mat")):
-        for opn in ("+=", "-=", "*="):
+        for opn in ("+=", "-=", "*=", "="):
             for fn in db.fns(cls + "::operator" + opn):
                 rt = [str(x).rstrip("U") for x in (fn.get("rec_targs") or [])]
                 u = fn["_unit"]
                 if kind == "mat":
-                    if len(rt) < 4 or not rt[3].startswith("fcppt::math::detail::static_storage<"):
+                    if len(rt) < 4 or not plain_storage(rt[3]):
                         continue
                     tshape = ("mat", int(rt[1]), int(rt[2]))
                 else:
-                    if len(rt) < 3 or not rt[2].startswith("fcppt::math::detail::static_storage<"):
+                    if len(rt) < 3 or not plain_storage(rt[2]):
                         continue
                     tshape = (kind, int(rt[1]))
                 ops = operands_of(fn)
                 if ops is None or len(ops) != 1:
                     continue
-                if ops[0].shape[0] != "scalar" and not is_static(u.ty(fn["params"][0]["t"])):
+                if ops[0].shape[0] != "scalar" and not is_plain(u.ty(fn["params"][0]["t"])):
                     continue
+                if opn == "=" and (fn.get("defaulted") or fn.get("body") is None or ops[0].shape[0] == "scalar"):
+                    continue
+                stor = "|view<-static" if "view_storage" in str(rt[-1]) else "|static<-view" if "view_storage" in (u.ty(fn["params"][0]["t"]) or "") else ""
                 me = Operand("this", tshape)
                 rhs = ops[0]
                 if rhs.shape[0] != "scalar" and rhs.shape != tshape:
                     continue
-                key = "%s::operator%s|%s" % (cls.replace("fcppt::math::", ""), opn,
-                                             ("s" if rhs.shape[0] == "scalar" else "same") + "|" + "x".join(str(x) for x in tshape[1:]))
+                key = "%s::operator%s|%s%s" % (cls.replace("fcppt::math::", ""), opn,
+                                               ("s" if rhs.shape[0] == "scalar" else "same") + "|" + "x".join(str(x) for x in tshape[1:]), stor)
                 try:
                     v, ev = run(db, cfg, fn)
                     res = make_resolver(lay, [me, rhs], ev)
@@ -589,10 +703,92 @@ def rule_inplace(rep, db, cfg, lay):
 
 
 # --------------------------------------------------------------------------------------------
+# ALIAS: v *= v.x()
+
+def _uses(fn, pid):
+    """(node, parent chain) of every reference to declaration pid in fn's body, lambdas included; a lambda that captures pid by copy
+    hides its inner uses (they read the copy)"""
+    out = []
+
+    def visit(n, parents):
+        if isinstance(n, dict):
+            if n.get("k") == "ref" and n.get("id") == pid:
+                out.append((n, list(parents)))
+            if n.get("k") == "lambda":
+                caps = {c.get("id"): c.get("by") for c in n.get("captures", [])}
+                if caps.get(pid) == "copy":
+                    out.append(({"k": "capture-by-copy", "loc": n.get("loc")}, list(parents)))
+                    return
+                for op in n.get("ops", []):
+                    visit(op.get("body"), parents + [n])
+                return
+            for c in F.children(n):
+                visit(c, parents + [n])
+    visit(fn.get("body"), [])
+    return out
+
+
+def copied_before_use(db, fn, pid, depth=0):
+    """None if every use of the reference parameter pid hands it to a by-value parameter / capture / local, else a reason"""
+    u = fn["_unit"]
+    if depth > 4:
+        return "call chain too deep"
+    for node, parents in _uses(fn, pid):
+        if node.get("k") == "capture-by-copy":
+            continue
+        par = None
+        child = node
+        for q in reversed(parents):
+            if T.unwrap(u, q) is child or q.get("k") in ("icast", "cast", "initlist") or (q.get("k") == "call" and T.callee_qn(u, q) in T.TRANSPARENT_CALLS):
+                child = q
+                continue
+            par = q
+            break
+        if par is not None and par.get("k") == "var" and "&" not in (u.ty(par.get("t")) or ""):
+            continue
+        if par is not None and par.get("k") == "call" and par.get("callee") is not None:
+            args = par.get("args", [])
+            idx = next((i for i, a in enumerate(args) if a is child or T.unwrap(u, a) is node), None)
+            callee = db.resolve(u, par["callee"])
+            if idx is not None and callee is not None and idx < len(callee.get("params", [])):
+                cp = callee["params"][idx]
+                if cp.get("ref") == "val":
+                    continue
+                why = copied_before_use(db, callee, cp["id"], depth + 1)
+                if why is None:
+                    continue
+                return why
+        return "%s reads it through the reference at %s" % (F.fn_name(fn).split("fcppt::math::")[-1], u.loc(node.get("loc")))
+    return None
+
+
+def rule_alias(rep, db):
+    rep.rule("ALIAS", "an in-place scalar multiplication reads the scalar from a copy made before the first element is overwritten (v *= v.x())", floor=6)
+    for cls in ("fcppt::math::vector::object", "fcppt::math::dim::object", "fcppt::math::matrix::object"):
+        seen = set()
+        for fn in db.fns(cls + "::operator*="):
+            ops = operands_of(fn)
+            if ops is None or len(ops) != 1 or ops[0].shape[0] != "scalar":
+                continue
+            rt = tuple(str(x) for x in (fn.get("rec_targs") or []))
+            if rt in seen:
+                continue
+            seen.add(rt)
+            key = "%s::operator*=|%s" % (cls.replace("fcppt::math::", ""), "x".join(x.rstrip("U") for x in rt[1:-1]))
+            p = fn["params"][0]
+            why = None if p.get("ref") == "val" else copied_before_use(db, fn, p["id"])
+            if why:
+                rep.fail("ALIAS", key, F.primary_site(fn), F.describe(fn),
+                         "the multiplier may be an element of the object itself and is not copied before the elements are overwritten: " + why)
+            else:
+                rep.ok("ALIAS", key, F.primary_site(fn), F.describe(fn), "copied into a by-value parameter")
+
+
+# --------------------------------------------------------------------------------------------
 # VIEW scenarios (driver functions whose bodies apply library operations to row views)
 
 def rule_view(rep, db, cfg, lay):
-    rep.rule("VIEW", "operations on a row view of a matrix read the elements of the viewed row; construction from rows / elements keeps their order", floor=12)
+    rep.rule("VIEW", "operations on a row view of a matrix read the elements of the viewed row; construction from rows / elements keeps their order", floor=15)
     specs = {
         "scenario_row_plus": lambda ta, o: ({(c,): o[0](ta[2], c) + o[1](c) for c in range(ta[1])}, "row I + v"),
         "scenario_row_dot": lambda ta, o: ({(): sum((o[0](ta[2], c) * o[0](ta[3], c) for c in range(ta[1])), Poly())}, "row I . row J"),
@@ -606,6 +802,8 @@ def rule_view(rep, db, cfg, lay):
         "scenario_rows_3x2": lambda ta, o: ({(r, c): o[r * 2 + c].scalar() for r in range(3) for c in range(2)}, "rows in order, elements in order"),
         "scenario_elements_4": lambda ta, o: ({(i,): o[i].scalar() for i in range(4)}, "elements in order"),
         "scenario_dim_elements_3": lambda ta, o: ({(i,): o[i].scalar() for i in range(3)}, "elements in order"),
+        "scenario_convert_matrix": lambda ta, o: ({(r, c): o[0](r, c) for r in range(ta[0]) for c in range(ta[1])}, "converting constructor copies every element"),
+        "scenario_convert_vector": lambda ta, o: ({(i,): o[0](i) for i in range(ta[0])}, "converting constructor copies every element"),
     })
     for nm, mk in specs.items():
         fns = db.fns("(anonymous namespace)::" + nm)
@@ -719,6 +917,8 @@ def main(rep, tier, only):
         derived = rule_formula(rep, db, cfg, lay)
     if only in (None, "INPLACE"):
         rule_inplace(rep, db, cfg, lay)
+    if only in (None, "ALIAS"):
+        rule_alias(rep, db)
     if only in (None, "VIEW"):
         rule_view(rep, db, cfg, lay)
     if only in (None, "IDENT"):
